@@ -34,13 +34,22 @@ Definition remote_ok (ops : list op) : Prop :=
   forall ty d, In (SetRemote ty d) ops -> rdesc_ok d.
 
 (* CreateOffer's numbering loop leaves the transceivers with pairwise distinct
-   mids.  Excludes: an unset transceiver numbered before a later transceiver
-   with that mid has been seen (CreateOffer while a remote offer is pending),
-   and greaterMid++ wrapping around. *)
+   mids.  (Before the repair of CreateOffer this was a guard; it now follows
+   from the invariant and offer_nowrap: Proofs/JsepMidGen.v numbering_ok_lemma.) *)
 Definition numbering_ok (s : st) : Prop := NoDup (set_mids (trs (offer_alloc s))).
+
+(* no greaterMid++ of the numbering loop leaves the range of a Go int *)
+Fixpoint alloc_nowrap (g : Z) (l : list tr) : bool :=
+  match l with
+  | [] => true
+  | t :: rest =>
+      if mid_unset t then in_int (g + 1) && alloc_nowrap (g + 1) rest
+      else alloc_nowrap g rest
+  end.
+Definition offer_nowrap (s : st) : bool := alloc_nowrap (offer_start s) (trs s).
 (* ... at every CreateOffer of a history *)
-Definition numbering_ok_all (ops : list op) : Prop :=
-  forall s out s', In (s, CreateOffer, out, s') (trace ops) -> numbering_ok s.
+Definition nowrap_all (ops : list op) : Prop :=
+  forall s out s', In (s, CreateOffer, out, s') (trace ops) -> offer_nowrap s = true.
 
 (* every kind still has a codec (no section is written as a bare port-0 line) *)
 Definition codecs_ok (s : st) : Prop := forall k, has_codecs s k = true.
@@ -51,7 +60,8 @@ Definition remote_secs (d : option rdesc) : list rsection :=
 (* the state just before CreateOffer generates sections *)
 Definition offer_guard (s : st) : Prop :=
   let s1 := offer_alloc s in
-  numbering_ok s /\
+  (* the counter does not overflow *)
+  offer_nowrap s = true /\
   (* no transceiver carries the mid of an application section of the remote
      description the offer is generated against *)
   (forall t r, In t (trs s1) -> In r (remote_secs (offer_remote s1)) ->
@@ -93,3 +103,134 @@ Definition offer_usable (d : rdesc) : Prop :=
 Definition kinds_compatible (l : list tr) (d : rdesc) : Prop :=
   forall t r k, In t l -> In r (r_secs d) -> t_mid t = r_mid r ->
                 media_kind (r_kind r) = Some k -> t_kind t = k.
+
+(* ---------- the remote BUNDLE group as answers read it ---------- *)
+(* the tags bundleMatchFromRemote compares with: the remote a=group value with
+   the leading characters of "BUNDLE" trimmed, split at spaces *)
+Definition remote_group_value (d : rdesc) : string :=
+  trim_left_bundle (match r_group d with Some v => v | None => EmptyString end).
+Definition in_remote_group (d : rdesc) (m : string) : bool := bundle_match (Some (remote_group_value d)) m.
+
+(* ---------- C09: the descriptions a history applies ---------- *)
+Definition mids_of_r (d : rdesc) : list (option string) := map Some (map r_mid (r_secs d)).
+Definition mids_of_l (d : option ldesc) : list (option string) :=
+  match d with Some d => sec_mids d | None => [] end.
+
+(* the mid list of the description a call applies, when the signalling state
+   accepts the call (SetLocalDescription applies pc.lastOffer / pc.lastAnswer).
+   Acceptance, not the returned status: a call that fails after the state change
+   has applied its description all the same. *)
+Definition applies (s : st) (o : op) : option (list (option string)) :=
+  match o with
+  | SetLocal ty =>
+      match local_next (sig s) ty with
+      | Some _ => Some (mids_of_l (match ty with TOffer => last_offer s | _ => last_answer s end))
+      | None => None
+      end
+  | SetRemote ty d =>
+      match remote_next (sig s) ty with
+      | Some _ => Some (mids_of_r d)
+      | None => None
+      end
+  | _ => None
+  end.
+Definition applied_from (s : st) (ops : list op) : list (list (option string)) :=
+  flat_map (fun e => match e with (s, o, _, _) => match applies s o with Some m => [m] | None => [] end end)
+           (trace_from s ops).
+(* in the order they were applied *)
+Definition applied (ops : list op) : list (list (option string)) := applied_from init ops.
+
+(* ghost record carried along a history, to say "stale": *)
+Record ghost := {
+  g_applied : list (list (option string));   (* descriptions applied so far, newest first *)
+  g_offer_fresh : bool;      (* pc.lastOffer was created after the last description was applied *)
+  g_answer_fresh : bool }.   (* pc.lastAnswer was created for the remote offer that is pending *)
+Definition ghost0 : ghost := {| g_applied := []; g_offer_fresh := false; g_answer_fresh := false |}.
+Definition g_last (g : ghost) : option (list (option string)) := hd_error (g_applied g).
+
+Definition ghost_step (g : ghost) (s : st) (o : op) (out : outcome) : ghost :=
+  match applies s o with
+  | Some m =>
+      {| g_applied := m :: g_applied g; g_offer_fresh := false;
+         g_answer_fresh := match o with SetRemote TOffer _ => false | _ => g_answer_fresh g end |}
+  | None =>
+      match o, out with
+      | CreateOffer, ODesc (Ok _) =>
+          {| g_applied := g_applied g; g_offer_fresh := true; g_answer_fresh := g_answer_fresh g |}
+      | CreateAnswer, ODesc (Ok _) =>
+          {| g_applied := g_applied g; g_offer_fresh := g_offer_fresh g; g_answer_fresh := true |}
+      | _, _ => g
+      end
+  end.
+
+Fixpoint gtrace_from (s : st) (g : ghost) (ops : list op) : list (st * ghost * op) :=
+  match ops with
+  | [] => []
+  | o :: rest => let '(s', out) := step s o in (s, g, o) :: gtrace_from s' (ghost_step g s o out) rest
+  end.
+Definition gtrace (ops : list op) : list (st * ghost * op) := gtrace_from init ghost0 ops.
+
+(* l extends the description applied last *)
+Definition prefix_of (p : option (list (option string))) (l : list (option string)) : Prop :=
+  match p with None => True | Some p => exists extra, l = p ++ extra end.
+Definition all_usable (d : rdesc) : Prop := forall r, In r (r_secs d) -> usable r = true.
+
+(* the guard of the chain theorem, per call.  It excludes exactly the recorded
+   causes: duplicate mids (C06's guard at every CreateOffer / CreateAnswer:
+   counter overflow, a transceiver carrying the remote application mid, the data
+   mid Itoa(len) already in use, a kind without codec); unusable remote
+   sections (they are skipped); stale descriptions (SetLocalDescription applying
+   an offer created before the last description was applied, or an answer created
+   for an earlier remote offer); and it asks of the remote side what JSEP asks: a
+   remote offer extends the description applied last, a remote (provisional)
+   answer lists the mids of the offer it answers. *)
+Definition chain_guard (s : st) (g : ghost) (o : op) : Prop :=
+  match o with
+  | CreateOffer => offer_guard s
+  | CreateAnswer => codecs_ok s
+  | SetLocal ty =>
+      match local_next (sig s) ty with
+      | None => True
+      | Some _ => match ty with TOffer => g_offer_fresh g = true | _ => g_answer_fresh g = true end
+      end
+  | SetRemote ty d =>
+      rdesc_ok d /\
+      match remote_next (sig s) ty with
+      | None => True
+      | Some _ =>
+          all_usable d /\
+          match ty with
+          | TOffer => prefix_of (g_last g) (mids_of_r d)
+          | _ => g_last g = Some (mids_of_r d)
+          end
+      end
+  | _ => True
+  end.
+Definition hist_guard (ops : list op) : Prop :=
+  forall s g o, In (s, g, o) (gtrace ops) -> chain_guard s g o.
+
+(* the part of it that the extension itself needs: no clause about duplicate
+   mids (those only decide whether "the" index of a mid is well defined), no
+   rdesc_ok *)
+Definition chain_guard_light (s : st) (g : ghost) (o : op) : Prop :=
+  match o with
+  | CreateOffer | CreateAnswer => codecs_ok s
+  | SetLocal ty =>
+      match local_next (sig s) ty with
+      | None => True
+      | Some _ => match ty with TOffer => g_offer_fresh g = true | _ => g_answer_fresh g = true end
+      end
+  | SetRemote ty d =>
+      match remote_next (sig s) ty with
+      | None => True
+      | Some _ =>
+          all_usable d /\
+          match ty with
+          | TOffer => prefix_of (g_last g) (mids_of_r d)
+          | _ => g_last g = Some (mids_of_r d)
+          end
+      end
+  | _ => True
+  end.
+Definition hist_guard_light (ops : list op) : Prop :=
+  forall s g o, In (s, g, o) (gtrace ops) -> chain_guard_light s g o.
